@@ -300,6 +300,12 @@ impl ExtendedDataSquare {
             return Err(Error::EdsInvalidDimentions);
         }
 
+        // an empty square has no rows to encode (and `chunks_mut(0)` below would panic):
+        // let `new()` reject it like any other square that is too small
+        if ods_width == 0 {
+            return ExtendedDataSquare::new(Vec::new(), "Leopard".to_string(), app_version);
+        }
+
         let eds_width = ods_width * 2;
         let mut eds_shares = Vec::with_capacity(eds_width * eds_width);
         // take rows of ods and interleave them with parity shares
